@@ -17,13 +17,14 @@ Sizes == {<<4, 0>>, <<4, 3>>, <<7, 1>>}
 Init == c = [t |-> "none"]
 Next == /\ c.t = "none"
         /\ \/ \E w \in [1..N -> 0..MaxIter], s \in {<<4, 0>>, <<4, 2>>} : c' = [t |-> "schedule", waits |-> w, nc |-> s[1], nd |-> s[2]]
-           \/ \E k \in Kinds, n \in {1, 2, 5, 6, 11, 48}, s \in Sizes :
-                 c' = [t |-> "config", kind |-> k[1], ty |-> k[2], n |-> n, nc |-> s[1], nd |-> s[2]]
+           \* pre: the sampler has been used before (run(3, 2)) -- "from the same sampler state" includes its history
+           \/ \E k \in Kinds, n \in {1, 2, 5, 6, 11, 48}, s \in Sizes, pre \in BOOLEAN :
+                 c' = [t |-> "config", kind |-> k[1], ty |-> k[2], n |-> n, nc |-> s[1], nd |-> s[2], pre |-> pre]
            \* large runs: thousands of rows / burn-in transitions (beyond typical block and buffer thresholds)
            \/ \E k \in {<<"MH", "f64">>, <<"Gibbs", "i32">>}, s \in {<<1500, 1100>>, <<1025, 0>>} :
-                 c' = [t |-> "config", kind |-> k[1], ty |-> k[2], n |-> 2, nc |-> s[1], nd |-> s[2]]
+                 c' = [t |-> "config", kind |-> k[1], ty |-> k[2], n |-> 2, nc |-> s[1], nd |-> s[2], pre |-> FALSE]
            \/ \E k \in {<<"HMC", "f32/f32">>, <<"NUTS", "f64/f64">>} :
-                 c' = [t |-> "config", kind |-> k[1], ty |-> k[2], n |-> 2, nc |-> 257, nd |-> 40]
+                 c' = [t |-> "config", kind |-> k[1], ty |-> k[2], n |-> 2, nc |-> 257, nd |-> 40, pre |-> FALSE]
            \* slow: the chain's transitions take long enough that PERIODIC sends (one per second) happen, not only the final one
            \/ \E s \in Sizes, sl \in BOOLEAN : \E d \in 0..(s[1] + s[2] + 1) :
                  c' = [t |-> "fault", nc |-> s[1], nd |-> s[2], drop_at |-> d, slow |-> sl]
